@@ -36,11 +36,15 @@ ASSUMPTIONS = ['wavelength, focal length, pixel scales dyadic rationals (floats 
                'Gaussian-integer pupil data, no OPD, no tilt; comparison tolerance 1e-9*(1+max|expected|)',
                'the input fields of the model are the fields the implementation\'s wavefront holds after Wavefront * Plane '
                '(public attributes data/offset); the oracle takes the input plane from Wavefront.field of that wavefront']
-RULE = ('corpus, then random cases over {pupil->image, image->pupil, pupil->image->pupil, none-type}: pupil arrays 1..8 per axis '
-        '(odd/even/non-square), off-centre supports, monolithic and segmented (3-d mask) planes, scalar or per-axis dx and du, '
-        'oversample 1..3, shape None/int/pair 1..8, prop_shape None/int/pair (<= shape, rarely larger), output masks of any '
-        'support (full, single pixel, random, all-zero, wrong shape); non-trivial = non-square or prop_shape < shape or mask or '
-        'per-axis scales')
+RULE = ('corpus, then random cases over {pupil->image, image->pupil, pupil->image->pupil, none-type, histories}: pupil arrays 1..8 per '
+        'axis (odd/even/non-square), off-centre supports incl. single off-centre pixels and one-pixel segments, monolithic and '
+        'segmented (3-d mask) planes, amplitude dtypes complex/int/float32/uint8/bool, scalar or per-axis dx and du (tuple, list, '
+        'ndarray), oversample 1..3, shape None/int/pair 1..8, prop_shape None/int/pair (<= shape, rarely larger), output masks of any '
+        'support and dtype (full, single pixel, box, random, all-zero, wrong shape). A history propagates ONE wavefront object 2-4 '
+        'times with one argument varied at a time (or repeated), or a pupil->image->pupil chain whose intermediate wavefront is '
+        're-used; every call is compared with the model and the oracle on the input plane as it was before any call, and every '
+        'wavefront the caller holds must be unchanged after each call. lentil is imported afresh for every case, so each replay is '
+        'self-contained. non-trivial = history, or non-square or prop_shape < shape or mask or per-axis scales')
 
 TOL = 1e-9
 PT = {'none': 0, 'pupil': 1, 'image': 2}
@@ -85,18 +89,33 @@ def alphas(dx, du, wl, z, os):
     return ar, ac, ok
 
 
-def case_alphas(c):
-    """[(ar, ac)] for the one or two propagations of the case"""
-    a1 = alphas(c['dx'], c['call']['du'], c['wl'], c['z'], c['call']['os'])
-    out = [a1[:2]]
-    ok = a1[2]
+def steps_of(c):
+    """uniform view of a case: [(src, call)], src = 0 the initial wavefront, src = j > 0 the result of step j"""
+    if c['dir'] == 'history':
+        return [(int(s['src']), s['call']) for s in c['steps']]
     if c['dir'] == 'roundtrip':
-        du = pair(c['call']['du'], Fraction)
-        dx2 = [du[0] / c['call']['os'], du[1] / c['call']['os']]
-        a2 = alphas(dx2, c['call2']['du'], c['wl'], c['z'], c['call2']['os'])
-        out.append(a2[:2])
-        ok = ok and a2[2]
-    return out, ok
+        return [(0, c['call']), (1, c['call2'])]
+    return [(0, c['call'])]
+
+
+def step_info(c):
+    """per step: exact alphas, whether lentil's float alpha is within 1 ulp, cumulative unitary scale of the chain"""
+    px = {0: pair(c['dx'], Fraction)}
+    cum = {0: 1.0}
+    out = []
+    for k, (src, call) in enumerate(steps_of(c), start=1):
+        ar, ac, ok = alphas(list(px[src]), call['du'], c['wl'], c['z'], call['os'])
+        du = pair(call['du'], Fraction)
+        px[k] = (du[0] / call['os'], du[1] / call['os'])
+        cum[k] = cum[src] * math.sqrt(abs(float(ar * ac)))
+        out.append({'ar': ar, 'ac': ac, 'ok': ok, 'scale': cum[k]})
+    return out
+
+
+def case_alphas(c):
+    """[(ar, ac)] for the propagations of the case, and whether all float alphas are within 1 ulp"""
+    info = step_info(c)
+    return [(i['ar'], i['ac']) for i in info], all(i['ok'] for i in info)
 
 
 def case_L(c):
@@ -131,49 +150,137 @@ def wf_summary(w):
             'shape': [int(s) for s in tuple(w.shape)], 'fields': fields}
 
 
+NPDT = {'int': np.int64, 'float32': np.float32, 'uint8': np.uint8, 'bool': bool, 'float': float}
+
+
 def build_wavefront(lentil, c):
     A = to_np(c['A'])
-    mask = None if c.get('mask') is None else np.array(c['mask'], dtype=int)
+    if c.get('adtype'):                       # real-valued amplitude of another dtype (entries are exact in it)
+        A = A.real.astype(NPDT[c['adtype']])
+    mask = None if c.get('mask') is None else np.array(c['mask'], dtype=NPDT.get(c.get('mdtype'), int))
     wl, z, dx = fl(c['wl']), fl(c['z']), fl_arg(c['dx'])
-    if c['dir'] in ('pupil', 'roundtrip'):
+    start = c.get('start', c['dir'])
+    if start in ('pupil', 'roundtrip'):
         return lentil.Wavefront(wl) * lentil.Pupil(amplitude=A, mask=mask, pixelscale=dx, focal_length=z)
-    if c['dir'] == 'image':
+    if start == 'image':
         return (lentil.Wavefront(wl, pixelscale=dx, focal_length=z, ptype=lentil.image)
                 * lentil.Image(amplitude=A, mask=mask, pixelscale=dx))
     # a wavefront of type none: plain Plane
     return lentil.Wavefront(wl, pixelscale=dx, focal_length=z) * lentil.Plane(amplitude=A, mask=mask, pixelscale=dx)
 
 
+def arg_form(v, form):
+    """a per-axis argument in one of its legal spellings"""
+    if isinstance(v, (list, tuple)):
+        return {'tuple': tuple(v), 'list': list(v), 'array': np.array(v)}[form or 'tuple']
+    return v
+
+
 def do_call(lentil, w, call):
-    kw = {'pixelscale': fl_arg(call['du']), 'oversample': call['os']}
+    kw = {'pixelscale': arg_form(fl_arg(call['du']), call.get('du_form')), 'oversample': call['os']}
     if call.get('shape') is not None:
-        kw['shape'] = tuple(call['shape']) if isinstance(call['shape'], list) else call['shape']
+        kw['shape'] = arg_form(call['shape'], call.get('shape_form'))
     if call.get('prop_shape') is not None:
-        kw['prop_shape'] = tuple(call['prop_shape']) if isinstance(call['prop_shape'], list) else call['prop_shape']
+        kw['prop_shape'] = arg_form(call['prop_shape'], call.get('shape_form'))
     if call.get('omask') is not None:
-        kw['mask'] = np.array(call['omask'], dtype=int)
+        kw['mask'] = np.array(call['omask'], dtype=NPDT.get(call.get('omask_dtype'), int))
     return lentil.propagate_dft(w, **kw)
 
 
+def snapshot(w):
+    ps = w.pixelscale
+    return {'meta': (float(w.wavelength), None if ps is None else (float(ps[0]), float(ps[1])),
+                     None if w.focal_length is None else float(w.focal_length), str(w.ptype),
+                     tuple(int(x) for x in tuple(w.shape))),
+            'fields': [(np.array(f.data, dtype=complex, copy=True), (int(f.offset[0]), int(f.offset[1])), len(f.tilt))
+                       for f in w.data]}
+
+
+def changed(w, snap):
+    """None if the wavefront still is what the snapshot recorded, else a description"""
+    now = snapshot(w)
+    if now['meta'] != snap['meta']:
+        return f'attributes {snap["meta"]} -> {now["meta"]}'
+    if len(now['fields']) != len(snap['fields']):
+        return f'{len(snap["fields"])} fields -> {len(now["fields"])}'
+    for k, (a, b) in enumerate(zip(snap['fields'], now['fields'])):
+        if a[1:] != b[1:] or a[0].shape != b[0].shape:
+            return f'field {k}: offset/tilt/shape {a[1:]}, {a[0].shape} -> {b[1:]}, {b[0].shape}'
+        if not np.array_equal(a[0], b[0]):
+            i = np.unravel_index(np.argmax(np.abs(a[0] - b[0])), a[0].shape) if a[0].ndim else ()
+            return f'field {k} data at {tuple(int(x) for x in i)}: {a[0][i]} -> {b[0][i]}'
+    return None
+
+
+def result_of(w2):
+    return {'out': wf_summary(w2), 'field': clist(w2.field),
+            'intensity': [[float(v) for v in row] for row in np.asarray(w2.intensity)]}
+
+
+def fresh_lentil():
+    """a freshly imported lentil for every case: module-level state (memoised grids, caches) cannot leak from one case
+    into the next, so a failing case is reproducible on its own and state carried between calls is exercised only
+    inside the 'history' cases, which contain their whole call sequence"""
+    import sys
+    for k in list(sys.modules):
+        if k == 'lentil' or k.startswith('lentil.'):
+            del sys.modules[k]
+    return C.import_lentil()
+
+
 def _run(c):
-    lentil = C.import_lentil()
+    lentil = fresh_lentil()
     res = {}
     try:
         w = build_wavefront(lentil, c)
         res['input'] = wf_summary(w)
-        res['in_plane'] = clist(w.field)
+        res['in_plane'] = clist(w.field)       # read BEFORE any propagation
     except Exception as e:
         return {'err': type(e).__name__, 'stage': 'wavefront'}
+    if c['dir'] == 'history':
+        # the SAME objects are propagated again and again; every wavefront alive must stay what it was
+        live = [w]
+        steps = []
+        muts = []
+        for k, (src, call) in enumerate(steps_of(c), start=1):
+            srcw = live[src]
+            if srcw is None:
+                live.append(None)
+                steps.append({'err': steps[src - 1].get('err'), 'skipped': True})
+                continue
+            snaps = [None if x is None else snapshot(x) for x in live]
+            try:
+                w2 = do_call(lentil, srcw, call)
+                steps.append(result_of(w2))
+            except Exception as e:
+                w2 = None
+                steps.append({'err': type(e).__name__})
+            for j, (x, sn) in enumerate(zip(live, snaps)):
+                if x is not None:
+                    d = changed(x, sn)
+                    if d:
+                        muts.append({'step': k, 'wavefront': j, 'what': d})
+            live.append(w2)
+        res['steps'] = steps
+        res['mutations'] = muts
+        return res
+    snap = snapshot(w)
     try:
         w2 = do_call(lentil, w, c['call'])
         if c['dir'] == 'roundtrip':
             res['mid_shape'] = [int(s) for s in tuple(w2.shape)]
-            w2 = do_call(lentil, w2, c['call2'])
-        res['out'] = wf_summary(w2)
-        res['field'] = clist(w2.field)
-        res['intensity'] = [[float(v) for v in row] for row in np.asarray(w2.intensity)]
+            snap2 = snapshot(w2)
+            w3 = do_call(lentil, w2, c['call2'])
+            d = changed(w2, snap2)
+            if d:
+                res.setdefault('mutations', []).append({'step': 2, 'wavefront': 1, 'what': d})
+            w2 = w3
+        res.update(result_of(w2))
     except Exception as e:
         res['err'] = type(e).__name__
+    d = changed(w, snap)
+    if d:
+        res.setdefault('mutations', []).append({'step': 1, 'wavefront': 0, 'what': d})
     return res
 
 
@@ -216,7 +323,7 @@ def encode(c):
         if f['ntilt'] or len(f['shape']) != 2:
             return None
     L = case_L(c)
-    out = [2 if c['dir'] == 'roundtrip' else 1, L]
+    out = [{'roundtrip': 2, 'history': 3}.get(c['dir'], 1), L]
     out += C.enc_q(w['wl']) + [1] + C.enc_q(w['ps'][0]) + C.enc_q(w['ps'][1]) + [1] + C.enc_q(w['z'])
     out += [w['shape'][0], w['shape'][1], PT[w['ptype']], 0, len(w['fields'])]
     for f in w['fields']:
@@ -225,6 +332,12 @@ def encode(c):
             for v in row:
                 out += C.enc_c((C.frac(v[0]), C.frac(v[1])))
         out += [f['offset'][0], f['offset'][1], 0]
+    if c['dir'] == 'history':
+        st = steps_of(c)
+        out += [len(st)]
+        for src, call in st:
+            out += [src] + enc_call(call)
+        return out
     out += enc_call(c['call'])
     if c['dir'] == 'roundtrip':
         out += enc_call(c['call2'])
@@ -232,19 +345,15 @@ def encode(c):
 
 
 def case_scale(c):
-    s = 1.0
-    for ar, ac in case_alphas(c)[0]:
-        s *= math.sqrt(abs(float(ar * ac)))
-    return s
+    return step_info(c)[-1]['scale']
 
 
-def decode(c, ints):
-    L = case_L(c)
-    rd = C.Reader(ints, L)
+def read_wavefront(rd, L, scale):
+    """one eresult (ewavefront) of Extract/RunC02.v"""
     st = rd.z()
     if st == 1:
         return {'err': C.ERRNAMES[rd.z()]}
-    scale = case_scale(c)
+    assert st == 0
     wl = rd.q()
     ps = rd.opt(lambda: (rd.q(), rd.q()))
     z = rd.opt(rd.q)
@@ -268,8 +377,22 @@ def decode(c, ints):
         return [[f(C.kval(v, L)) for v in row] for row in rd.arr()]
     field = read_res(lambda v: v * scale)
     inten = read_res(lambda v: v * scale * scale)
-    assert rd.done()
     return {'wl': wl, 'ps': ps, 'z': z, 'shape': shape, 'ptype': ptype, 'fields': fields, 'field': field, 'intensity': inten}
+
+
+def decode(c, ints):
+    L = case_L(c)
+    rd = C.Reader(ints, L)
+    if c['dir'] == 'history':
+        assert rd.z() == 0
+        info = step_info(c)
+        n = rd.z()
+        assert n == len(info)
+        out = {'steps': [read_wavefront(rd, L, i['scale']) for i in info]}
+    else:
+        out = read_wavefront(rd, L, case_scale(c))
+    assert rd.done()
+    return out
 
 
 def cx(a):
@@ -299,6 +422,18 @@ def num_close(a, b):
 
 
 def compare(c, impl, model):
+    if c['dir'] == 'history':
+        if 'steps' not in impl:
+            return f'implementation {impl.get("err")} while building the wavefront'
+        for k, (a, b) in enumerate(zip(impl['steps'], model['steps']), start=1):
+            msg = compare_one(a, b)
+            if msg:
+                return f'call {k} of the history: {msg}'
+        return None
+    return compare_one(impl, model)
+
+
+def compare_one(impl, model):
     if ('err' in impl) != ('err' in model):
         return f'implementation {impl.get("err", "returned a value")}, model {model.get("err", "returned a value")}'
     if 'err' in impl:
@@ -409,6 +544,10 @@ def mask_ok(call, S):
 def oracle(c, impl):
     if 'input' not in impl:
         return f'building the wavefront raised {impl.get("err")}'
+    if c['dir'] == 'history':
+        return oracle_history(c, impl)
+    if impl.get('mutations'):
+        return mutation_msg(impl['mutations'][0])
     if c['dir'] == 'none':
         return None if impl.get('err') == 'TypeError' else 'a wavefront of type none was not refused with TypeError'
     wshape = tuple(impl['input']['shape'])
@@ -464,6 +603,82 @@ def oracle(c, impl):
     return None
 
 
+def mutation_msg(m):
+    return (f'call {m["step"]} changed wavefront #{m["wavefront"]} (0 = the initial wavefront, j = result of call j) '
+            f'that the caller still holds: {m["what"]}; a later propagation of it no longer sees the same input plane')
+
+
+SWAP = {'pupil': 'image', 'image': 'pupil'}
+
+
+def oracle_history(c, impl):
+    """one wavefront object propagated several times, intermediate results re-used: every call must give what it would
+    give on a fresh copy of its input (the Fraunhofer sum of the input plane as it was BEFORE any call)"""
+    info = step_info(c)
+    inp = impl['input']
+    plane = {0: cx(impl['in_plane'])}
+    shape = {0: tuple(inp['shape'])}
+    ptype = {0: inp['ptype']}
+    muts = {}
+    for m in impl.get('mutations', []):
+        muts.setdefault(m['step'], m)
+    note = ''
+    for k, (src, call) in enumerate(steps_of(c), start=1):
+        got = impl['steps'][k - 1]
+        plane[k] = None
+        if plane[src] is None:
+            continue
+        S, P = call_shapes(call, shape[src])
+        bad = mask_ok(call, S)
+        if bad == 'unspecified':
+            continue
+        if bad is not None:
+            if got.get('err') != bad:
+                return f'call {k}: an unusable mask was not refused with {bad} (got {got.get("err", "a result")})'
+            continue
+        if 'err' in got:
+            return f'call {k}: propagate_dft raised {got["err"]}'
+        os_ = call['os']
+        exp, win = fraunhofer(plane[src], info[k - 1]['ar'], info[k - 1]['ac'], S, P, os_, call.get('omask'))
+        tag = f'call {k} (propagating {"the initial wavefront" if src == 0 else f"the result of call {src}"}){note}'
+        msg = arr_close(cx(got['field']), exp)
+        if msg:
+            return f'{tag}: Wavefront.field is not the unitary Fraunhofer sum on the evaluated window and zero elsewhere: ' + msg
+        msg = arr_close(np.asarray(got['intensity']), np.abs(np.array(exp)) ** 2)
+        if msg:
+            return f'{tag}: Wavefront.intensity is not |field|^2 of the Fraunhofer sum: ' + msg
+        o = got['out']
+        if o['shape'] != [S[0] * os_, S[1] * os_]:
+            return f'{tag}: output shape {o["shape"]} is not shape*oversample'
+        for j, f in enumerate(o['fields']):
+            if win is None:
+                return f'{tag}: output field {j} exists although no sample is evaluated'
+            rmin = -(f['shape'][0] // 2) + f['offset'][0]
+            cmin = -(f['shape'][1] // 2) + f['offset'][1]
+            ext = (rmin, rmin + f['shape'][0] - 1, cmin, cmin + f['shape'][1] - 1)
+            if ext != win:
+                return f'{tag}: output field {j} covers {ext}, the evaluated window is {win}'
+        if o['wl'] != inp['wl']:
+            return f'{tag}: wavelength changed: {inp["wl"]} -> {o["wl"]}'
+        if o['z'] != inp['z']:
+            return f'{tag}: focal length changed: {inp["z"]} -> {o["z"]}'
+        du = pair(call['du'], Fraction)
+        want = [float(du[0] / os_), float(du[1] / os_)]
+        if not (num_close(o['ps'][0], want[0]) and num_close(o['ps'][1], want[1])):
+            return f'{tag}: output pixelscale {o["ps"]} is not du/oversample = {want}'
+        if o['ptype'] != SWAP[ptype[src]]:
+            return f'{tag}: output ptype {o["ptype"]}, expected {SWAP[ptype[src]]}'
+        if k in muts and not note:
+            # keep going: a later call on the changed wavefront shows the consequence
+            note = f' [earlier, {mutation_msg(muts[k])}]'
+        plane[k] = np.array(exp)
+        shape[k] = (S[0] * os_, S[1] * os_)
+        ptype[k] = o['ptype']
+    if impl.get('mutations'):
+        return mutation_msg(impl['mutations'][0])
+    return None
+
+
 # ------------------------------------------------------------------ generation
 DYAD = ['1', '1/2', '1/4', '1/8', '1/16', '2']
 
@@ -485,8 +700,11 @@ def rnd_pupil(rng, maxn):
     r1 = rng.randint(r0, n - 1)
     c0 = rng.randint(0, m - 1)
     c1 = rng.randint(c0, m - 1)
-    if rng.random() < 0.3:
+    t = rng.random()
+    if t < 0.3:
         r0, r1, c0, c1 = 0, n - 1, 0, m - 1
+    elif t < 0.42:
+        r1, c1 = r0, c0                      # a single illuminated pixel, anywhere (a 1x1 Field with an offset)
     A = [[[0, 0] for _ in range(m)] for _ in range(n)]
     for r in range(r0, r1 + 1):
         for cc in range(c0, c1 + 1):
@@ -518,6 +736,9 @@ def rnd_pupil(rng, maxn):
             sm = [[1 if (a0 <= r <= a1 and b0 <= cc <= b1 and rng.random() < 0.8) else 0 for cc in range(m)] for r in range(n)]
             if not any(v for row in sm for v in row):
                 sm[a0][b0] = 1
+            if rng.random() < 0.2:               # a one-pixel segment
+                sm = [[0] * m for _ in range(n)]
+                sm[rng.randint(a0, a1)][rng.randint(b0, b1)] = 1
             segs.append(sm)
         mask = segs
     return A, mask
@@ -567,12 +788,118 @@ def rnd_call(rng, wshape, maxs, maxos):
             omask = [[0] * Co for _ in range(Ro)]                                  # IndexError
         else:
             omask = [[1] * (Co + 1) for _ in range(Ro + 1)]                        # ValueError
-    return {'du': rnd_scale(rng), 'shape': shape, 'prop_shape': prop, 'os': os, 'omask': omask}, (Ro, Co)
+    call = {'du': rnd_scale(rng), 'shape': shape, 'prop_shape': prop, 'os': os, 'omask': omask}
+    rnd_forms(rng, call)
+    return call, (Ro, Co)
+
+
+def rnd_forms(rng, call):
+    """legal spellings of the same arguments: tuple / list / ndarray for per-axis values, mask dtypes"""
+    for k in ('du_form', 'shape_form', 'omask_dtype'):
+        call.pop(k, None)
+    if isinstance(call['du'], list) and rng.random() < 0.5:
+        call['du_form'] = rng.choice(['list', 'array'])
+    if (isinstance(call.get('shape'), list) or isinstance(call.get('prop_shape'), list)) and rng.random() < 0.4:
+        call['shape_form'] = rng.choice(['list', 'array'])
+    m = call.get('omask')
+    if m is not None and rng.random() < 0.5:
+        vals = {v for row in m for v in row}
+        if vals <= {0, 1}:
+            call['omask_dtype'] = rng.choice(['bool', 'uint8', 'float'])
+        elif min(vals) >= 0:
+            call['omask_dtype'] = rng.choice(['uint8', 'float'])
+        else:
+            call['omask_dtype'] = 'float'
+
+
+def box_mask(rng, Ro, Co):
+    a0 = rng.randint(0, Ro - 1)
+    a1 = rng.randint(a0, Ro - 1)
+    b0 = rng.randint(0, Co - 1)
+    b1 = rng.randint(b0, Co - 1)
+    return [[1 if (a0 <= r <= a1 and b0 <= cc <= b1) else 0 for cc in range(Co)] for r in range(Ro)]
+
+
+def vary(rng, call, wshape, maxs):
+    """the same call with ONE argument changed (or none: the call repeated); the mask follows the output shape"""
+    new = json.loads(json.dumps(call))
+    S, P = call_shapes(new, wshape)
+    what = rng.choice(['repeat', 'shape', 'prop_shape', 'os', 'omask', 'du_form', 'du', 'forms'])
+    if what == 'shape':
+        S = (rng.randint(1, maxs), rng.randint(1, maxs))
+        new['shape'] = S[0] if (S[0] == S[1] and rng.random() < 0.5) else list(S)
+    elif what == 'prop_shape':
+        new['prop_shape'] = None if (new.get('prop_shape') is not None and rng.random() < 0.4) \
+            else [rng.randint(1, S[0]), rng.randint(1, S[1])]
+    elif what == 'os':
+        new['os'] = rng.choice([o for o in (1, 2, 3) if o != new['os']])
+    elif what == 'omask':
+        new['omask'] = None if (new.get('omask') is not None and rng.random() < 0.3) else 'new'
+    elif what == 'du_form':
+        du = new['du']
+        new['du'] = [du, du] if not isinstance(du, list) else (du[0] if du[0] == du[1] else [du[0], du[0]])
+    elif what == 'du':
+        new['du'] = rnd_scale(rng)
+    Ro, Co = S[0] * new['os'], S[1] * new['os']
+    m = new.get('omask')
+    if m == 'new' or (m is not None and (len(m) != Ro or len(m[0]) != Co)):
+        new['omask'] = box_mask(rng, Ro, Co) if rng.random() < 0.7 else \
+            [[1 if rng.random() < 0.3 else 0 for _ in range(Co)] for _ in range(Ro)]
+        if not any(v > 0 for row in new['omask'] for v in row):
+            new['omask'][rng.randint(0, Ro - 1)][rng.randint(0, Co - 1)] = 1
+    rnd_forms(rng, new)
+    return new, what
+
+
+def usable(call, wshape):
+    S, _ = call_shapes(call, wshape)
+    return mask_ok(call, S) is None
+
+
+def rnd_history(rng, wshape, maxs):
+    """2-4 propagations that re-use wavefront objects: the same wavefront with one argument varied at a time, or a
+    pupil -> image -> pupil chain whose intermediate wavefront is propagated more than once"""
+    for _ in range(50):
+        c1, so = rnd_call(rng, wshape, maxs, 3)
+        if usable(c1, wshape):
+            break
+    else:
+        return None
+    steps = [{'src': 0, 'call': c1}]
+    n = rng.randint(2, 4)
+    kinds = []
+    if rng.random() < 0.6:
+        prev = c1
+        for _ in range(n - 1):
+            prev, what = vary(rng, prev, wshape, maxs)
+            kinds.append(what)
+            steps.append({'src': 0, 'call': prev})
+        tag = 'same'
+    else:
+        for _ in range(50):
+            c2, _so2 = rnd_call(rng, so, min(maxs, 5), 2)
+            if usable(c2, so):
+                break
+        else:
+            return None
+        steps.append({'src': 1, 'call': c2})
+        if n >= 3:
+            if rng.random() < 0.6:
+                c3, what = vary(rng, c2, so, min(maxs, 5))
+                steps.append({'src': 1, 'call': c3})
+            else:
+                c3, what = vary(rng, c1, wshape, maxs)
+                steps.append({'src': 0, 'call': c3})
+            kinds.append(what)
+        if n >= 4:
+            steps.append({'src': 0, 'call': json.loads(json.dumps(c1))})      # the very first call again
+        tag = 'chain'
+    return steps, tag
 
 
 def generate(rng, tier):
     quick = tier == 'quick'
-    n_cases = 120 if quick else 2500
+    n_cases = 120 if quick else 2000
     maxn = 6 if quick else 8
     maxs = 5 if quick else 8
     Lmax = 64 if quick else 160
@@ -581,18 +908,39 @@ def generate(rng, tier):
     while out < n_cases and tries < 200000:
         tries += 1
         t = rng.random()
-        d = 'pupil' if t < 0.6 else 'image' if t < 0.8 else 'roundtrip' if t < 0.96 else 'none'
-        A, mask = rnd_pupil(rng, maxn if d != 'roundtrip' else min(maxn, 5))
+        d = 'pupil' if t < 0.42 else 'image' if t < 0.57 else 'roundtrip' if t < 0.69 else 'history' if t < 0.97 else 'none'
+        small = d in ('roundtrip', 'history')
+        A, mask = rnd_pupil(rng, maxn if not small else min(maxn, 5))
         wshape = (len(A), len(A[0]))
         c = {'dir': d, 'A': A, 'mask': mask,
              'wl': rng.choice(['1/2', '1/4', '3/4', '5/8', '1', '3/8']),
              'z': rng.choice(['1', '2', '4', '8', '3', '3/2', '16']),
              'dx': rnd_scale(rng)}
-        c['call'], so = rnd_call(rng, wshape, maxs if d != 'roundtrip' else min(maxs, 4), 3)
-        if d == 'roundtrip':
-            if c['call'].get('omask') is not None and rng.random() < 0.5:
-                c['call']['omask'] = None
-            c['call2'], _ = rnd_call(rng, so, min(maxs, 5), 2)
+        if rng.random() < 0.2:
+            # a real amplitude of another dtype (values exact in it); the mask, if any, as bool or float
+            dt = rng.choice(['int', 'float32', 'uint8', 'bool'])
+            for row in A:
+                for v in row:
+                    v[1] = 0
+                    v[0] = (1 if v[0] else 0) if dt == 'bool' else abs(v[0]) if dt == 'uint8' else v[0]
+            if not any(v[0] for row in A for v in row):
+                A[rng.randint(0, wshape[0] - 1)][rng.randint(0, wshape[1] - 1)][0] = 1
+            c['adtype'] = dt
+            if mask is not None and rng.random() < 0.5:
+                c['mdtype'] = rng.choice(['bool', 'float'])
+        if d == 'history':
+            c['start'] = 'pupil' if rng.random() < 0.75 else 'image'
+            h = rnd_history(rng, wshape, min(maxs, 4))
+            if h is None:
+                continue
+            c['steps'], c['pattern'] = h
+        else:
+            c['call'], so = rnd_call(rng, wshape, maxs if d != 'roundtrip' else min(maxs, 4), 3)
+            if d == 'roundtrip':
+                if c['call'].get('omask') is not None and rng.random() < 0.5:
+                    c['call']['omask'] = None
+                    rnd_forms(rng, c['call'])
+                c['call2'], _ = rnd_call(rng, so, min(maxs, 5), 2)
         al, ok = case_alphas(c)
         if not ok or case_L(c) > Lmax:
             continue
@@ -604,14 +952,20 @@ def generate(rng, tier):
 
 def classify(c):
     k = c['dir']
+    if k == 'history':
+        k += '/' + c.get('pattern', '?') + '/' + c.get('start', 'pupil')
     if isinstance(c.get('mask'), list) and c['mask'] and isinstance(c['mask'][0][0], list):
         k += '/segmented'
-    if c['call'].get('omask') is not None:
+    if any(call.get('omask') is not None for _, call in steps_of(c)):
         k += '/mask'
+    if c.get('adtype'):
+        k += '/' + c['adtype']
     return k
 
 
 def nontrivial(c):
+    if c['dir'] == 'history':
+        return True
     n, m = len(c['A']), len(c['A'][0])
     call = c['call']
     S, P = call_shapes(call, (n, m))
